@@ -244,7 +244,7 @@ def parse_segment(text, version=None, encoding_chars=None, validation_level=None
     validation_level = _get_validation_level(validation_level)
 
     segment_name = text[:3]
-    text = text[4:] if segment_name != 'MSH' else text[3:]
+    text = text[4:] if segment_name.upper() != 'MSH' else text[3:]
     segment = Segment(segment_name, version=version, validation_level=validation_level,
                       reference=reference)
     segment.children = parse_fields(text, segment_name, version, encoding_chars, validation_level,
@@ -309,21 +309,23 @@ def parse_fields(text, name_prefix=None, version=None, encoding_chars=None, vali
     splitted_fields = text.split(field_sep)
     fields = []
     for index, field in enumerate(splitted_fields):
+        # element names are case insensitive: MSH-1 and MSH-2 get their special treatment whatever the case
         name = "{0}_{1}".format(name_prefix, index + 1) if name_prefix is not None else None
+        upper_name = name.upper() if name is not None else None
         try:
             reference = references[name]['ref'] if references is not None else None
         except KeyError:
             reference = None
 
         if field.strip() or name is None:
-            if name == 'MSH_2':
+            if upper_name == 'MSH_2':
                 fields.append(parse_field(field, name, version, encoding_chars, validation_level,
                                           reference))
             else:
                 for rep in field.split(repetition_sep):
                     fields.append(parse_field(rep, name, version, encoding_chars, validation_level,
                                               reference, force_varies))
-        elif name == "MSH_1":
+        elif upper_name == "MSH_1":
             fields.append(parse_field(field_sep, name, version, encoding_chars, validation_level,
                                       reference))
     return fields
@@ -389,7 +391,7 @@ def parse_field(text, name=None, version=None, encoding_chars=None, validation_l
         else:
             field = Field(version=version, validation_level=validation_level, reference=reference)
 
-    if name in ('MSH_1', 'MSH_2'):
+    if name is not None and name.upper() in ('MSH_1', 'MSH_2'):
         s = SubComponent(datatype='ST', value=text, validation_level=validation_level, version=version)
         c = Component(datatype='ST', validation_level=validation_level, version=version)
         c.add(s)
